@@ -609,6 +609,10 @@ pub fn run(mut run: Run) -> i32 {
             ("squares 3 members", vec![Polygon::new(sq(0.0, 16.0), vec![sq(2.0, 14.0)]), Polygon::new(sq(4.0, 12.0), vec![sq(6.0, 10.0)]), Polygon::new(sq(7.0, 9.0), vec![])]),
             ("squares 2 members", vec![Polygon::new(sq(0.0, 16.0), vec![sq(2.0, 14.0)]), Polygon::new(sq(4.0, 12.0), vec![sq(6.0, 10.0)])]),
             ("squares, innermost first", vec![Polygon::new(sq(7.0, 9.0), vec![]), Polygon::new(sq(4.0, 12.0), vec![sq(6.0, 10.0)]), Polygon::new(sq(0.0, 16.0), vec![sq(2.0, 14.0)])]),
+            ("island inscribed in a hole (touching it in four points)", vec![Polygon::new(sq(0.0, 12.0), vec![sq(2.0, 10.0)]), Polygon::new(geo::LineString::from(vec![(6.0, 2.0), (10.0, 6.0), (6.0, 10.0), (2.0, 6.0), (6.0, 2.0)]), vec![])]),
+            ("inscribed island listed first", vec![Polygon::new(geo::LineString::from(vec![(6.0, 2.0), (10.0, 6.0), (6.0, 10.0), (2.0, 6.0), (6.0, 2.0)]), vec![]), Polygon::new(sq(0.0, 12.0), vec![sq(2.0, 10.0)])]),
+            ("island inscribed in a hole, with its own hole", vec![Polygon::new(sq(0.0, 12.0), vec![sq(2.0, 10.0)]), Polygon::new(geo::LineString::from(vec![(6.0, 2.0), (10.0, 6.0), (6.0, 10.0), (2.0, 6.0), (6.0, 2.0)]), vec![sq(5.0, 7.0)])]),
+            ("island touching its hole in two points", vec![Polygon::new(sq(0.0, 12.0), vec![sq(2.0, 10.0)]), Polygon::new(geo::LineString::from(vec![(6.0, 2.0), (8.0, 6.0), (6.0, 10.0), (4.0, 6.0), (6.0, 2.0)]), vec![])]),
             ("triangles in squares", vec![Polygon::new(sq(0.0, 20.0), vec![tri(1.0, 18.0)]), Polygon::new(tri(2.5, 12.0), vec![sq(4.0, 6.0)]), Polygon::new(sq(4.5, 5.5), vec![])]),
             ("two islands side by side", vec![Polygon::new(sq(0.0, 20.0), vec![sq(1.0, 19.0)]), Polygon::new(geo::LineString::from(vec![(2.0, 2.0), (9.0, 2.0), (9.0, 9.0), (2.0, 9.0), (2.0, 2.0)]), vec![geo::LineString::from(vec![(3.0, 3.0), (8.0, 3.0), (8.0, 8.0), (3.0, 8.0), (3.0, 3.0)])]), Polygon::new(geo::LineString::from(vec![(11.0, 11.0), (18.0, 11.0), (18.0, 18.0), (11.0, 18.0), (11.0, 11.0)]), vec![geo::LineString::from(vec![(12.0, 12.0), (17.0, 12.0), (17.0, 17.0), (12.0, 17.0), (12.0, 12.0)])]), Polygon::new(sq(4.0, 7.0), vec![]), Polygon::new(sq(13.0, 16.0), vec![])]),
         ];
@@ -655,8 +659,11 @@ pub fn run(mut run: Run) -> i32 {
                 Ok(Ok(mp)) => {
                     let a = mp.unsigned_area();
                     let holes: usize = mp.0.iter().map(|p| p.interiors().len()).sum();
-                    if (a - want).abs() > 1e-9 || mp.0.len() != *nmem {
-                        acc.viol("stitch_triangulation of nested rings: area or member count differs from the input".into(), idx, || {
+                    // C10 fixes the area; how rings that touch in points are grouped into members and holes is not fixed (an island touching its hole in four
+                    // points may come back as four small holes of one member), so the member count is only recorded
+                    acc.count(if mp.0.len() == *nmem { "stitch nested: same member count" } else { "stitch nested: other grouping of touching rings" }, 1);
+                    if (a - want).abs() > 1e-9 {
+                        acc.viol("stitch_triangulation of nested rings: area differs from the input".into(), idx, || {
                             json!({"input": name, "rotation": rot, "mode": mode, "stitched": format!("{:?}", mp), "area": a, "expected_area": want, "members": mp.0.len(), "expected_members": nmem, "holes": holes})
                         });
                     }
